@@ -47,6 +47,13 @@ def fam_padded_slots(q):
         lambda s, g: (s["passes"][0]["ruleSortKeys"][0], s["passes"][0]["rulePreContext"][0]), ((q, 0) if q + 20 <= 64 else "MUST-REJECT")
 
 
+def fam_xlb_context(q):
+    """q items before the line-break item # in a positioning rule, after a substitution pass whose longest rule has 10
+    items: the header's one-byte cross-line-boundary context is the product, or 255 (= unlimited) when that does not fit"""
+    return (HDR + GT + "table(sub) cA > cB / %s _; endtable;\ntable(pos) cS {shift.x = 5m} / %s # _ cB; endtable;\n" % (" ".join(["cS"] * 9), " ".join(["cA"] * q))), [], \
+        lambda s, g: (s["maxPreContext"], s["maxPostContext"]), (min(255, q * 10), min(255, 20))
+
+
 def fam_script_tags(q):
     tags = ", ".join('"%s"' % ("t%03d" % i) for i in range(q))
     return HDR.replace("\n", "\nScriptTags = (%s);\n" % tags, 1) + GT + "table(sub) cA > cB; endtable;\n", [], \
@@ -57,9 +64,9 @@ def fam_justify_attr_ids(q):
     """q ligature components (5 glyph attributes each) are numbered before the justification attributes, whose ids the
     Silf header stores in one byte each: the id in the header must be the id the value is stored under in Glat"""
     comps = "; ".join("component.c%d = box(0, 0, %dm, 10m)" % (i, i + 1) for i in range(q))
-    return (HDR + "table(glyph) cL = glyphid(11) {%s}; cA = glyphid(3..6) {justify.stretch = 777m; justify.weight = 3}; cB = glyphid(7..10); endtable;\n"
+    return (HDR + "table(glyph) cL = glyphid(11) {%s}; cA = glyphid(3..6) {justify.stretch = 777m; justify.shrink = 555m; justify.step = 333m; justify.weight = 57}; cB = glyphid(7..10); endtable;\n"
             "table(sub) cA > cB; endtable;\n" % comps), ["NOENGINE"], \
-        lambda s, g: [a for a, v in g["glat"]["glyphs"][3]["attrs"] if v == 777] == [s["jAttrs"][0][0]], True
+        lambda s, g: [[a for a, v in g["glat"]["glyphs"][3]["attrs"] if v == want] for want in (777, 555, 333, 57)] == [[x] for x in s["jAttrs"][0][:4]], True
 
 
 def fam_lig_components_per_glyph(q):
@@ -238,6 +245,7 @@ FAMILIES = [
     ("rule_slots", fam_slots, [63, 64, 65, 200], 120),
     ("precontext", fam_precontext, [62, 63, 64, 200], 120),
     ("padded_rule_slots", fam_padded_slots, [42, 43, 44, 45, 60], 120),
+    ("cross_line_boundary_context", fam_xlb_context, [3, 25, 26, 30, 60], 120),
     ("script_tags", fam_script_tags, [254, 255, 256, 257, 400], 120),
     ("justify_attr_ids_after_components", fam_justify_attr_ids, [40, 48, 49, 50, 52, 70], 120),
     ("lig_components_per_glyph", fam_lig_components_per_glyph, [254, 255, 256, 300], 120),
